@@ -100,6 +100,7 @@ def run_instance(inst, prop, findings, kfdir, rundir, say):
             rec["notes"].append("known finding %s: inconclusive" % f["id"]); continue
         if any(V.classify(d)[0] == "witness" and r == "FAILURE" for d, r in r2["props"].values()) and not witness_ok:
             witness_ok = True
+            rec["witness_bits"] = None      # no clean witness exists: the instance's whole domain is a listed defect
             rec["notes"].append("whole instance lies inside known-finding region %s (witness reachable only there)" % f["id"])
         pat = re.compile(f["assertion"])
         hit = [(n, d) for n, (d, r) in r2["props"].items() if r == "FAILURE" and pat.search(d)]
